@@ -143,6 +143,22 @@ def run_cell(ctx, L, cell, sysdefault):
     exp = decide(cell, sysdefault)
     info['expected'] = exp
     try:
+        if force and named is None and sysdefault:
+            # "the named or system default, with force_default_encoding overriding detection": forcing the default
+            # without naming it is forcing the system default - whatever the bytes are, the outcome is that of forcing
+            # the same converter by its name (this also covers the cells whose content the statement leaves open)
+            twin = parsing.parse(L, data, parsing.make_opts(prefer_cif2=prefer, encoding=sysdefault.encode(), force=1), 'new', 'accept')
+            try:
+                a = (res.rc, [e[:3] for e in res.errors], D.dump(L, res.cif) if res.cif else None)
+                b = (twin.rc, [e[:3] for e in twin.errors], D.dump(L, twin.cif) if twin.cif else None)
+            finally:
+                if twin.cif:
+                    L.destroy(twin.cif)
+            ctx.count('forced_system_default_twins')
+            if a != b:
+                ctx.violation('select:forced-system-default:differs-from-named', 'force_default_encoding with no name gave (result, errors, content) that differ from forcing %r by name: %s'
+                              % (sysdefault, D.first_difference(a, b)), info)
+                return
         for k, d in res.problems:
             ctx.violation(k, d, info)
         if res.rc not in DEFINED_CODES:
@@ -256,6 +272,7 @@ def run(env):
             samples=res.samples, exhaustive=True, matrix_cells=n, determined_cells=res.count('determined_cells'),
             undetermined_cells_run_for_safety_only=res.count('undetermined_cells'),
             bom_position_cases=res.count('bom_position_cases'),
+            forced_system_default_cells_compared_with_forcing_it_by_name=res.count('forced_system_default_twins'),
             system_default_converter=sorted(res.sets.get('sysdefault', ())),
             observed_decisions=len(res.sets.get('cells', ())), crashes=res.crashes),
         violations=res.violations, inconclusive=inconclusive,
